@@ -8,6 +8,7 @@ import (
 	"os"
 	"sync"
 
+	"github.com/enbility/spine-go/api"
 	"github.com/enbility/spine-go/model"
 )
 
@@ -20,9 +21,11 @@ import (
 // if the variable is not set.
 
 type verifTraceEntry struct {
-	Id uint64 `json:"id"`
-	C  string `json:"c"`
-	S  string `json:"s"`
+	Id  uint64 `json:"id"`
+	C   string `json:"c"`   // SKI and address of the client feature ("?" if it cannot be asked, e.g. a mock)
+	S   string `json:"s"`   // address of the server feature
+	Cid string `json:"cid"` // identity of the client feature object
+	Sid string `json:"sid"` // identity of the server feature object
 }
 
 type verifTraceLine struct {
@@ -110,11 +113,12 @@ func verifTraceHook(point string, args ...any) {
 	}
 	last := args[len(args)-1]
 	// the address of a mocked feature cannot be asked for: recorded as "?"
-	entry := func(id uint64, client, server func() *model.FeatureAddressType) (e verifTraceEntry) {
-		e = verifTraceEntry{Id: id, C: "?", S: "?"}
+	// (the client is identified by the SKI of its device and its address: two peers may use the same addresses)
+	entry := func(id uint64, client api.FeatureRemoteInterface, server api.FeatureLocalInterface) (e verifTraceEntry) {
+		e = verifTraceEntry{Id: id, C: "?", S: "?", Cid: verifTraceObj(client), Sid: verifTraceObj(server)}
 		defer func() { _ = recover() }()
-		e.C = verifTraceAddr(client())
-		e.S = verifTraceAddr(server())
+		e.S = verifTraceAddr(server.Address())
+		e.C = client.Device().Ski() + "|" + verifTraceAddr(client.Address())
 		return e
 	}
 	switch point {
@@ -129,7 +133,7 @@ func verifTraceHook(point string, args ...any) {
 		}
 		for _, item := range c.bindingEntries {
 			item := item
-			line.Entries = append(line.Entries, entry(item.Id, item.ClientFeature.Address, item.ServerFeature.Address))
+			line.Entries = append(line.Entries, entry(item.Id, item.ClientFeature, item.ServerFeature))
 		}
 	case "AddSubscription.inserted", "RemoveSubscription.stored", "RemoveSubscriptionsForEntity.stored":
 		c, ok := last.(*SubscriptionManager)
@@ -142,7 +146,7 @@ func verifTraceHook(point string, args ...any) {
 		}
 		for _, item := range c.subscriptionEntries {
 			item := item
-			line.Entries = append(line.Entries, entry(item.Id, item.ClientFeature.Address, item.ServerFeature.Address))
+			line.Entries = append(line.Entries, entry(item.Id, item.ClientFeature, item.ServerFeature))
 		}
 	case "Sender.counter":
 		c, ok := last.(*Sender)
